@@ -133,6 +133,12 @@ class DuckStub:
     def close(self) -> None:
         self.closed = True
 
+    def __enter__(self) -> "DuckStub":
+        return self
+
+    def __exit__(self, *exc) -> None:
+        self.close()
+
     # DuckDBPyConnection.begin/commit/rollback (method forms of the statements; commit() without a transaction is a no-op)
     def begin(self):
         if self.closed:
@@ -287,6 +293,8 @@ class DuckStub:
                 continue
             if isinstance(t.this, exp.Func) or isinstance(t.this, exp.Anonymous):
                 continue  # table functions
+            if not t.db and U(t.name) == "DF":
+                continue  # DuckDB replacement scan: a pandas DataFrame named df in the caller's frame (write_pandas)
             out.append(self._lookup(t)[:3])
         return out
 
